@@ -239,6 +239,11 @@ def run_check(pid, tier, seed, keep=False):
         nviol += len(lst)
     for kid, (kf, n) in sorted(known_hits.items()):
         print("KNOWN-FINDING: property=%s %s (%d occurrence(s) this run)" % (pid, kf.get("what", kid), n))
+    extra = {k: v for k, v in others.items() if k[0].startswith("X")}
+    for (p, c), n in sorted(extra.items()):
+        # checks of the specification beyond the listed properties (e.g. the Debug rendering): reported, never fatal
+        print("NOTE beyond-properties check failed: %s/%s (%d occurrence(s))" % (p, c, n))
+    others = {k: v for k, v in others.items() if not k[0].startswith("X")}
     if others:
         log("checks of other properties that failed on these traces (reported by their own checks): %s"
             % ", ".join("%s/%s x%d" % (p, c, n) for (p, c), n in sorted(others.items())[:12]))
